@@ -108,7 +108,8 @@ impl FileA {
 #[derive(Clone, Copy, Debug, PartialEq)]
 enum Frame {
     Angular,
-    Projected,
+    /// origin (x0, y0) in metres
+    Projected(i64, i64),
 }
 const LON0: i64 = 10;
 const LAT0: i64 = 50;
@@ -116,23 +117,33 @@ const X0: i64 = 600_000;
 const Y0: i64 = 500_000;
 
 impl Frame {
+    /// the frames of spec/GridFile.tla (XOrg, YOrg)
+    fn from_name(name: &str) -> Frame {
+        match name {
+            "projected" => Frame::Projected(X0, Y0),
+            "projected_w0" => Frame::Projected(0, Y0),
+            "projected_s0" => Frame::Projected(X0, 0),
+            "projected_neg" => Frame::Projected(-300, -Y0),
+            _ => Frame::Angular,
+        }
+    }
     /// header text of a longitude / latitude / increment
     fn x_text(&self, x: i64) -> String {
         match self {
             Frame::Angular => fixed6((LON0 * 64 + x) * 15625),
-            Frame::Projected => (X0 + x).to_string(),
+            Frame::Projected(x0, _) => (x0 + x).to_string(),
         }
     }
     fn y_text(&self, y: i64) -> String {
         match self {
             Frame::Angular => fixed6((LAT0 * 64 + y) * 15625),
-            Frame::Projected => (Y0 + y).to_string(),
+            Frame::Projected(_, y0) => (y0 + y).to_string(),
         }
     }
     fn d_text(&self, d: i64) -> String {
         match self {
             Frame::Angular => fixed6(d * 15625),
-            Frame::Projected => d.to_string(),
+            Frame::Projected(..) => d.to_string(),
         }
     }
     fn x_deg(&self, x: i64) -> f64 {
@@ -144,7 +155,7 @@ impl Frame {
     /// Query coordinate, produced with the same expression the decoder applies to the header
     fn x_query(&self, x: i64, ntv2: bool) -> f64 {
         match self {
-            Frame::Projected => (X0 + x) as f64,
+            Frame::Projected(x0, _) => (x0 + x) as f64,
             Frame::Angular => {
                 if ntv2 {
                     // decoder: -wlon.to_radians() / 3600. on the west-positive arc-second value
@@ -158,7 +169,7 @@ impl Frame {
     }
     fn y_query(&self, y: i64, ntv2: bool) -> f64 {
         match self {
-            Frame::Projected => (Y0 + y) as f64,
+            Frame::Projected(_, y0) => (y0 + y) as f64,
             Frame::Angular => {
                 if ntv2 {
                     (self.y_deg(y) * 3600.0).to_radians() / 3600.
@@ -556,7 +567,7 @@ fn run_scenario(sc: &Value, rep: &mut Report) {
     let fmt = sc["fmt"].as_str().unwrap();
     let ntv2 = fmt == "ntv2";
     let scale = sc["scale"].as_i64().unwrap();
-    let frame = if kind == "projected" { Frame::Projected } else { Frame::Angular };
+    let frame = if kind == "projected" { Frame::Projected(X0, Y0) } else { Frame::Angular };
     let exact = kind == "projected";
     let conv = Conv::from_json(&sc["conv"], &sc["unit"], &sc["dec"]);
     let files: Vec<FileA> = sc["files"].as_array().unwrap().iter().map(FileA::from_json).collect();
@@ -969,7 +980,7 @@ impl Case {
         Case {
             fmt: v["fmt"].as_str().unwrap_or("").to_string(),
             kind: v["kind"].as_str().unwrap_or("").to_string(),
-            frame: if v["frame"] == "projected" { Frame::Projected } else { Frame::Angular },
+            frame: Frame::from_name(v["frame"].as_str().unwrap_or("")),
             scale: v["scale"].as_i64().unwrap_or(1),
             file: if shipped.is_empty() { Some(FileA::from_json(&v["file"])) } else { None },
             shipped,
@@ -1320,7 +1331,7 @@ fn subgrid_contains(g: &Sub, x: i64, y: i64) -> bool {
 /// borders, and compare with the abstract file.
 fn read_back(wf: &mut Wf, id: &Value, c: &Case, f: &FileA, grid: &Arc<dyn Grid>, dec: &[(usize, f64)], conv: &Conv) {
     let ntv2 = c.fmt == "ntv2";
-    let exact = c.frame == Frame::Projected;
+    let exact = c.frame != Frame::Angular;
     let maxv = conv.to_internal(f.subs.iter().map(|s| s.max_abs_node()).max().unwrap_or(0) as f64 / c.scale as f64).abs();
     let tol = if exact { 0.0 } else { 1e-6 * maxv };
     for (si, g) in f.subs.iter().enumerate() {
